@@ -1,6 +1,45 @@
 import TabulaModel.Util
+import TabulaModel.Model.Session
 namespace Tabula.C03H
+open Tabula Tabula.Session
 
-def handle (_op : String) (_args : List String) : String := "bad-op"
+/-- token: `n<int>` or `o<hexname-as-nat>`; here operators are sent as their first byte -/
+def parseTok (s : String) : Option Tok :=
+  match s.toList with
+  | 'n' :: r => (String.ofList r).toInt?.map .num
+  | 'o' :: r => (String.ofList r).toNat?.map .op
+  | _ => none
+
+def parseCall (s : String) : Option (List Tok) :=
+  if s == "-" then some [] else (s.splitOn ",").mapM parseTok
+
+def showOps (ops : List Operation) : String :=
+  ";".intercalate (ops.map fun o => s!"{o.name}:{",".intercalate (o.operands.map toString)}")
+
+def parseEntry (s : String) : Option (Name × Nat) :=
+  match s.splitOn "=" with
+  | [n, f] => do
+    let n ← unhex n
+    let f ← f.toNat?
+    pure (n.map (·.toNat), f)
+  | _ => none
+
+def handle (op : String) (args : List String) : String :=
+  match op, args with
+  | "c03.sess", calls =>
+    match calls.mapM parseCall with
+    | some cs =>
+      (match (sessionOwn cs).getLast? with
+       | some ops => "[" ++ showOps ops ++ "]"
+       | none => "[]")
+    | none => "bad-op"
+  | "c03.fonts", [entries, keys] =>
+    match (if entries == "-" then some [] else (entries.splitOn ",").mapM parseEntry),
+          (if keys == "-" then some [] else (keys.splitOn ",").mapM unhex) with
+    | some es, some ks =>
+      let m := registerAll es
+      ",".intercalate (ks.map fun k => match m (k.map (·.toNat)) with | some f => toString f | none => "-")
+    | _, _ => "bad-op"
+  | _, _ => "bad-op"
 
 end Tabula.C03H
